@@ -37,34 +37,6 @@ def run(ctx, only_solver=False):
     if only_solver:
         return _solver_rules(ctx, p, I, F)
 
-    def dt():
-        at = py(I.static('DT_AT', F))
-        if (len(at) - 2) % 5 != 0:
-            return 'DT_AT has %d entries: not (year,a,b,c,d)x n + (year, value)' % len(at)
-        knots = [at[i] for i in range(0, len(at) - 2, 5)] + [at[-2]]
-        for a, b in zip(knots, knots[1:]):
-            if not b > a:
-                return 'TT-UT knots not increasing: %s then %s' % (a, b)
-        worst = (0.0, None)
-        eps = 1e-7
-        for y in knots[1:]:
-            l = I.call('ShouXingUtil::dt_calc', [y - eps])
-            r = I.call('ShouXingUtil::dt_calc', [y + eps])
-            d = abs(l - r)
-            if d > worst[0]:
-                worst = (d, y)
-        y0 = knots[-1]
-        for y in (y0 + 100.0,):
-            l = I.call('ShouXingUtil::dt_calc', [y - eps])
-            r = I.call('ShouXingUtil::dt_calc', [y + eps])
-            if abs(l - r) > worst[0]:
-                worst = (abs(l - r), y)
-        if worst[0] > 5.0:
-            return ('TT-UT jumps by %.1f s at year %s (joins must be continuous to within a few seconds)' % worst, {})
-        run.dt_worst = worst
-        return None
-    ctx.guard('CONSTREL-DT', 'CONSTREL:DT_AT:continuity', dt, 24, {'table': 'DT_AT', 'site': fn_site(p, 'ShouXingUtil::dt_calc')})
-
     # ---- series tables and loop indices
     def shapes():
         xl0 = py(I.static('XL0', F))
@@ -130,7 +102,7 @@ def run(ctx, only_solver=False):
         return None
     ctx.guard('TABLES-CORR', 'TABLES:QB/SB', corr, 2)
 
-    _solver_rules(ctx, p, I, F)
+    # (the solver-structure rules - TT-UT continuity, branch selection, midnight guards, correction-string readers, Newton steps - arrive with the month_records bundle)
 
     # a term built by name, by index or by stepping must be THE term k of that year (year/index arithmetic and the cursory-day seed; series stubbed)
     from rules import c06 as _c06
@@ -145,6 +117,35 @@ def run(ctx, only_solver=False):
 def _solver_rules(ctx, p, I, F):
     ctx.rule('TABLES-CORR', 'correction strings decode to {0,1,2}, cover the largest index their readers can form, and the k-th symbol is read for the k-th period')
     ctx.rule('FLOW-SOLVER', 'solver structure: full series in the last Newton step; midnight guard falls back to the precise solver; two-sided precise search')
+    ctx.rule('CONSTREL-DT', 'TT-UT model continuous within 5 s at every join of its literal spline table and at the extrapolation joins')
+    def dt():
+        at = py(I.static('DT_AT', F))
+        if (len(at) - 2) % 5 != 0:
+            return 'DT_AT has %d entries: not (year,a,b,c,d)x n + (year, value)' % len(at)
+        knots = [at[i] for i in range(0, len(at) - 2, 5)] + [at[-2]]
+        for a, b in zip(knots, knots[1:]):
+            if not b > a:
+                return 'TT-UT knots not increasing: %s then %s' % (a, b)
+        worst = (0.0, None)
+        eps = 1e-7
+        for y in knots[1:]:
+            l = I.call('ShouXingUtil::dt_calc', [y - eps])
+            r = I.call('ShouXingUtil::dt_calc', [y + eps])
+            d = abs(l - r)
+            if d > worst[0]:
+                worst = (d, y)
+        y0 = knots[-1]
+        for y in (y0 + 100.0,):
+            l = I.call('ShouXingUtil::dt_calc', [y - eps])
+            r = I.call('ShouXingUtil::dt_calc', [y + eps])
+            if abs(l - r) > worst[0]:
+                worst = (abs(l - r), y)
+        if worst[0] > 5.0:
+            return ('TT-UT jumps by %.1f s at year %s (joins must be continuous to within a few seconds)' % worst, {})
+        return None
+    ctx.guard('CONSTREL-DT', 'CONSTREL:DT_AT:continuity', dt, 24, {'table': 'DT_AT', 'site': fn_site(p, 'ShouXingUtil::dt_calc')})
+
+
     # ---- solver structure (syntax)
     def calls_in(fnq, callee):
         fn = p.fn(fnq)
@@ -249,6 +250,37 @@ def _solver_rules(ctx, p, I, F):
         return f
     ctx.guard('TABLES-CORR', 'TABLES:SB:reader', corr_reader('calc_shuo', 'shuo_low', 'SHUO_KB', 'SB', 14.0, 29.5306), 16000, {'fn': fn_site(p, 'ShouXingUtil::calc_shuo')})
     ctx.guard('TABLES-CORR', 'TABLES:QB:reader', corr_reader('calc_qi', 'qi_low', 'QI_KB', 'QB', 7.0, 365.2422 / 24.0), 8000, {'fn': fn_site(p, 'ShouXingUtil::calc_qi')})
+
+    # which routine serves which range: inside the fitted table no solver at all, between its end and 1960 the low-precision solver (plus the
+    # correction string), everywhere else the high-precision day solver
+    def branches(fnname, kbname, pc, low, high):
+        def f():
+            kb = py(I.static(kbname, F))
+            f1, f2, f3 = kb[0] - pc, kb[-1] - pc, 2436935.0
+            calls = []
+            saved = {}
+            for nm in (low, high):
+                saved[nm] = I.overrides.get('ShouXingUtil::' + nm)
+                I.overrides['ShouXingUtil::' + nm] = (lambda nm_: lambda I_, r, a: (calls.append(nm_), 0.0)[1])(nm)
+            try:
+                probes = [(f1 - 4000.0, high), (f1 - 1.0, high), (f1 + 1.0, None), ((f1 + f2) / 2, None), (f2 - 1.0, None), (f2 + 1.0, low), ((f2 + f3) / 2, low), (f3 - 1.0, low),
+                          (f3 + 0.5, high), (f3 + 20000.0, high), (2451545.0 + 2900000.0, high)]
+                for jd, want in probes:
+                    del calls[:]
+                    I.call('ShouXingUtil::' + fnname, [jd - 2451545.0])
+                    got = sorted(set(calls))
+                    if got != ([want] if want else []):
+                        return '%s at Julian day %.1f uses %s, expected %s (fitted table: none; table end .. 1960: %s; elsewhere: %s)' % (fnname, jd, got or 'no solver', want or 'no solver', low, high)
+                return None
+            finally:
+                for nm, v in saved.items():
+                    if v is None:
+                        I.overrides.pop('ShouXingUtil::' + nm, None)
+                    else:
+                        I.overrides['ShouXingUtil::' + nm] = v
+        return f
+    ctx.guard('FLOW-SOLVER', 'FLOW:calc_qi:branches', branches('calc_qi', 'QI_KB', 7.0, 'qi_low', 'qi_high'), 11, {'fn': fn_site(p, 'ShouXingUtil::calc_qi')})
+    ctx.guard('FLOW-SOLVER', 'FLOW:calc_shuo:branches', branches('calc_shuo', 'SHUO_KB', 14.0, 'shuo_low', 'shuo_high'), 11, {'fn': fn_site(p, 'ShouXingUtil::calc_shuo')})
 
     ctx.guard('FLOW-SOLVER', 'FLOW:qi_high:midnight-guard', guard('qi_high', 'sa_lon_t2', 'sa_lon_t', 1200), 18, {'fn': fn_site(p, 'ShouXingUtil::qi_high')})
     ctx.guard('FLOW-SOLVER', 'FLOW:shuo_high:midnight-guard', guard('shuo_high', 'm_sa_lon_t2', 'm_sa_lon_t', 1800), 18, {'fn': fn_site(p, 'ShouXingUtil::shuo_high')})
